@@ -334,7 +334,8 @@ class Lexer:
         """
         parts = ['"']
         for p in tokens:
-            if p.prev_white:
+            # White space before the first token of the argument is deleted.
+            if p.prev_white and len(parts) > 1:
                 parts.append(" ")
             parts.append(p.sanitized_str())
         parts.append('"')
